@@ -14,6 +14,7 @@ use std::num::TryFromIntError;
 use std::convert::{TryFrom, TryInto};
 use std::ops::Range;
 use std::path::{Path, PathBuf};
+use std::collections::HashSet;
 use core::marker::PointeeSized;
 use vstd::std_specs::convert::*;
 verus! {
